@@ -254,3 +254,48 @@
 		assert!(r.unix_timestamp() == dt.unix_timestamp());
 		assert!(r.offset() == dt.offset());
 	}
+
+	// ---------------------------------------------------------------- import kernels (C17), x509-parser build
+	/// @ob ku.from_u16_roundtrip @props C17 @kind forall @tier quick @timeout 900 @features "x509-parser" @bound "all 512 key-usage sets" @fns rcgen::KeyUsagePurpose::from_u16,rcgen::KeyUsagePurpose::to_u16
+	#[cfg(feature = "x509-parser")]
+	#[kani::proof]
+	#[kani::unwind(12)]
+	fn ku_from_u16_roundtrip() {
+		let s: u16 = kani::any();
+		kani::assume(s & 0x007f == 0); // only the nine defined bits
+		kani::cover!(true, "reachable");
+		let v = KeyUsagePurpose::from_u16(s);
+		// exactly the requested usages, each once, in RFC bit order
+		let mut acc: u16 = 0;
+		let mut last: i32 = -1;
+		let mut i = 0;
+		while i < v.len() {
+			let bit = rfc5280_ku_bit(&v[i]) as i32;
+			assert!(bit > last, "RFC order, no duplicates");
+			last = bit;
+			acc |= 0x8000u16 >> bit;
+			i += 1;
+		}
+		assert!(acc == s, "from_u16 inverts the union of to_u16");
+		core::mem::forget(v);
+	}
+
+	/// @ob ip.octet_lengths @props C17,C10 @kind forall @tier quick @timeout 900 @features "x509-parser" @bound "every byte string of length 0..=17" @fns rcgen::ip_addr_from_octets
+	#[cfg(feature = "x509-parser")]
+	#[kani::proof]
+	#[kani::unwind(20)]
+	fn ip_octet_lengths() {
+		let b: [u8; 17] = kani::any();
+		kani::cover!(true, "reachable");
+		let mut n = 0usize;
+		while n <= 17 {
+			let r = ip_addr_from_octets(&b[..n]);
+			match r {
+				Ok(IpAddr::V4(a)) => { assert!(n == 4); assert!(a.octets() == [b[0], b[1], b[2], b[3]]); },
+				Ok(IpAddr::V6(a)) => { assert!(n == 16); let o = a.octets(); let mut i = 0; while i < 16 { assert!(o[i] == b[i]); i += 1; } },
+				Err(Error::InvalidIpAddressOctetLength(l)) => { assert!(n != 4 && n != 16 && l == n); },
+				Err(_) => assert!(false),
+			}
+			n += 1;
+		}
+	}
